@@ -248,6 +248,66 @@ def run(R):
                                                                  "size": s_["size"]}, {"reported": rep, "files": have})
 
     _slice_datasets(R, rng, scale_stats)
+    _sharded_datasets(R, rng, scale_stats)
+
+
+def _sharded_datasets(R, rng, scale_stats):
+    """Sharded conversions whose chunk grids are not powers of two (3 x 3 x 1 at full resolution; one minishard
+    holding the identifiers 0,1,2,3,4,6,8,9,12 with three separate holes; 8 minishards of which two in the middle
+    stay unused; two shards of two minishards).  Every chunk that scale-stats
+    counts must be readable through a fresh accessor, and the decoded byte size must be the reported one."""
+    for k, (shape, spec) in enumerate([([12, 12, 4], "0,0,0"), ([12, 12, 4], "3,0,0"), ([12, 9, 4], "1,1,0")]):
+        d = os.path.join(R.tmp, f"shds{k}")
+        os.makedirs(d)
+        arr = (np.arange(int(np.prod(shape))) % 249 + 1).astype("uint8").reshape(shape)
+        nii = os.path.join(d, "v.nii")
+        pipeline.write_nifti(nii, arr, affine=np.eye(4))
+        out = os.path.join(d, "out")
+        steps = [("volume_to_precomputed", ["--generate-info", "--sharding", spec, nii, out]),
+                 ("generate_scales_info", [os.path.join(out, "info_fullres.json"), out, "--target-chunk-size", 4]),
+                 ("volume_to_precomputed", [nii, out]),
+                 ("compute_scales", [out])]
+        case = {"kind": "sharded dataset", "shape": shape, "sharding": spec}
+        R.case(case, nontrivial=True)
+        failed = None
+        for name, args in steps:
+            rc, so, se = pipeline.run_script(name, args, inprocess=False)
+            if rc != 0:
+                failed = name
+                break
+        if failed:
+            R.count(f"sharded-real:{failed}:failed")
+            R.violation("a sharded conversion of a small volume failed", dict(case, step=failed), {"stderr": se[-300:]})
+            continue
+        info = json.load(open(os.path.join(out, "info")))
+        pio = pipeline.fresh_io(out)
+        buf = io.StringIO()
+        with contextlib.redirect_stdout(buf), np.errstate(all="ignore"):
+            scale_stats.main(["scale-stats", out])
+        rows = [LINE.match(ln) for ln in buf.getvalue().splitlines() if ln.startswith("Scale ")]
+        if len(rows) != len(info["scales"]) or not all(rows):
+            R.violation("scale-stats output not parseable (sharded dataset)", case, {"stdout": buf.getvalue()[:300]})
+            continue
+        R.count("sharded-real:ok")
+        from neuroglancer_scripts.utils import readable_count
+        for row, s_ in zip(rows, info["scales"]):
+            rep = int(row.group(6).replace(",", ""))
+            grid = pipeline.chunk_grid(s_["size"], s_["chunk_sizes"][0])
+            readable, nbytes, err = 0, 0, None
+            for cc in grid:
+                try:
+                    ch = pio.read_chunk(s_["key"], cc)
+                    readable += 1
+                    nbytes += ch.nbytes
+                except Exception as e:  # noqa: BLE001
+                    err = f"{type(e).__name__}: {e}"[:160]
+            if readable != rep or readable != len(grid):
+                R.violation("reported chunk count differs from the chunks that can be read back (sharded dataset)",
+                            dict(case, scale=s_["key"]), {"reported": rep, "readable": readable, "grid": len(grid),
+                                                          "error": err})
+            elif readable_count(nbytes) != row.group(8):
+                R.violation("reported size differs from the decoded byte size (sharded dataset)",
+                            dict(case, scale=s_["key"]), {"reported": row.group(8), "decoded_bytes": nbytes})
 
 
 def _slice_datasets(R, rng, scale_stats):
@@ -375,6 +435,14 @@ def _check_info(R, scale_stats, info, real=None, via_cmd=None):
                 R.violation("reported size differs from the decoded byte size", case,
                             {"reported": rep_size, "decoded_bytes": nbytes, "scale": s["key"]})
     t = TOTAL.match(lines[-1]) if lines else None
+    if t and not big:
+        # the model's accumulation (Readable.stats_totals, theorem C20_totals_exact) over the rows the model
+        # computed for this info, against the Total line the command printed
+        m_tot = R.model.call("totals", [[rep[0], rep[1]] for rep in replies])
+        if int(t.group(1).replace(",", "")) != m_tot[0]:
+            R.disagree("reported total chunk count vs model", case, t.group(1), m_tot[0])
+        if m_tot[1] >= 0 and t.group(3) != readable_count(m_tot[1]):
+            R.disagree("reported total size vs model", case, t.group(3), m_tot[1])
     if not t:
         R.violation("scale-stats total line missing", case, {"stdout": lines[-2:]})
     elif not big:
